@@ -133,4 +133,23 @@ impl Ctx {
         self.sum.dist("coq_writer_histories");
         self.coq2(if zc { 51 } else { 50 }, chunk as usize, &ints, &[], &Some(obs), true);
     }
+    /// A RangeWriter history (op 52): the outcome of every write / flush / seek, then the destination afterwards
+    /// (the model replays the inner writes it derives on a cursor over the original destination).
+    pub fn coq_range_writer(&mut self, cell: &str, start: u64, end: u64, orig: &[u8], log: &[WLog], out: &[u8]) {
+        if log.iter().any(|l| l.code < 0) || log.len() > 60 || orig.len() > 3000 || out.len() > 3000 { return; }
+        if log.iter().map(|l| l.data.len()).sum::<usize>() > 6000 { return; }
+        let used = self.uni_used.entry(cell.to_string()).or_insert(0);
+        if *used >= 45 * self.coq_budget / 2400 { return; }
+        *used += 1;
+        let mut ints: Vec<i128> = vec![start as i128, end as i128];
+        let mut obs: Vec<i128> = vec![];
+        for l in log {
+            ints.extend([l.code, l.arg, l.data.len() as i128]);
+            ints.extend(l.data.iter().map(|&b| b as i128));
+            obs.push(l.out);
+        }
+        obs.extend(out.iter().map(|&b| b as i128));
+        self.sum.dist("coq_range_writer_histories");
+        self.coq2(52, 0, &ints, orig, &Some(obs), true);
+    }
 }
